@@ -1,7 +1,7 @@
 """developer aid: markdown table of what the last runs covered, from evidence/*.json (pasted into DESIGN.md section 12)"""
 import glob, json, sys
 rows = []
-for f in sorted(glob.glob('evidence/C??.json')):
+for f in sorted(glob.glob((sys.argv[2] if len(sys.argv) > 2 else 'evidence') + '/C??.json')):
     d = json.load(open(f))
     cov = d['coverage']
     for ob in cov.get('obligations_detail', []):
